@@ -101,8 +101,9 @@ example : (match appendInteger 3 (2 ^ 40 - 1) false (some 0) (some (2 ^ 40 - 1))
     object sets are empty in TS 38.413), so nothing on the emulator's path is excluded;
   * the encoding of an open-type value is shorter than 16384 octets (one length determinant; the property's bound).
   Measured (one-off, 2 725 `aperrt` values of the quick tier, seed 1): every value the encoder accepts (2 683) satisfies `conf`.
-  FINDING (schema): `AssociatedQosFlowItem.QosFlowMappingIndication` is `*aper.Enumerated` tagged only `optional`
-  (no bounds): the encoder refuses every present value, so the round trip holds vacuously for it.
+  FINDING (schema, confirmed on the Go code and fixed in /repo 9b665fc): `AssociatedQosFlowItem.QosFlowMappingIndication`
+  was `*aper.Enumerated` tagged only `optional` (no bounds): the encoder refused every present value. The tag now is
+  `valueExt,valueLB:0,valueUB:1,optional`; `enumOK` needs no exception either way.
 -/
 
 /-- parameters fit the type -/
